@@ -1,7 +1,7 @@
 """DelegCli.tla: the tuftool delegation workflow (create-role, add-role, update-delegated-targets, add-key,
 remove-key, remove, update --role) as a protocol between the owner and the holders of delegated roles.
 Shared by C07 and C10: TLC checks the protocol model, generates behaviours (simulation over four plan
-families), the harness replays them through the tuftool binary, inspects the published repository
+families and exhaustive enumeration of the owner's key operations), the harness replays them through the tuftool binary, inspects the published repository
 independently after every command and loads it with a fresh client; the property predicates are evaluated on
 the observed data, any other disagreement with the model is DRIFT."""
 import json, os, re
@@ -27,11 +27,18 @@ def model_check(w, tag, steps):
     return g
 
 
-def generate(w, tag, seed, num, steps):
+def generate(w, tag, seed, num, steps, tier="quick"):
     out, seen = [], set()
-    for fam in ("MC_Free", "MC_Alt", "MC_Deep", "MC_Staged"):
+    fams = [("MC_Free", num), ("MC_Alt", num), ("MC_Deep", num), ("MC_Staged", num), ("MC_KeyOps", 0)] + ([("MC_KeyOps2", 0)] if tier == "thorough" else [])
+    for fam, n in fams:
         cfg = _cfg(w, f"gen-{fam}.cfg", {"MaxSteps": steps, "Plans": "<- " + fam}, ["Emit"], props=False)
-        g = tlc("MC_DelegCli", cfg, f"{tag}-gen-{fam}", workers=1, timeout=900, simulate=num, depth=steps + 1, seed=seed)
+        if n:
+            g = tlc("MC_DelegCli", cfg, f"{tag}-gen-{fam}", workers=1, timeout=900, simulate=n, depth=steps + 1, seed=seed)
+        else:
+            # exhaustive: every behaviour of the family's plans (the history is part of the state)
+            txt = open(cfg).read().replace("VIEW view\n", "")
+            open(cfg, "w").write(txt)
+            g = tlc("MC_DelegCli", cfg, f"{tag}-gen-{fam}", workers=4, timeout=900)
         fam_rows = []
         for r in g.replays:
             k = json.dumps([s["cmd"] for s in r["steps"]], sort_keys=True)
@@ -90,7 +97,9 @@ def judge(v, pid, rows, stats):
             stats["kinds"][key] = stats["kinds"].get(key, 0) + 1
             o = s["obs"]
             pr = predicates(prev, s)
-            if pid == "C10" and s["ok"] and s["cmd"]["act"] in ("owneradd", "incorporate") and not o["client"]["loads"] and not m["unchecked"]:
+            # the model's Loads is the oracle for "must load" when both agree that the command succeeded: an unchecked
+            # publication (remove-key, add-role of an under-signed file) excuses a refusal only where the model has one
+            if pid == "C10" and s["ok"] and m["ok"] and s["cmd"]["act"] in ("owneradd", "incorporate") and not o["client"]["loads"] and m["loads"]:
                 pr["C10"].append(f"`{s['cmd']['act']}` exited 0 but a client holding the root refuses the published repository: {o['client'].get('err')} {o['client'].get('detail', '')[:160]}")
             if pid == "C10" and s["ok"] and m["ok"] and s["cmd"]["act"] in ("owneradd", "incorporate") and o["client"]["loads"]:
                 # what was put in = the model's record of the accepted commands (names, versions, keys, thresholds)
@@ -143,9 +152,20 @@ def run_into(v, pid, tier, seed):
     w = workdir(tag)
     tuftool = vlib.build_tuftool()
     g = model_check(w, tag, 6 if tier == "quick" else 8)
-    num, steps, per = (60, 7, 11) if tier == "quick" else (400, 8, 150)
-    fams = generate(w, tag, seed, num, steps)
-    cases = [c for fam in fams for c in fam[:per]]
+    num, steps, per = (60, 7, 9) if tier == "quick" else (400, 8, 120)
+    fams = generate(w, tag, seed, num, steps, tier)
+    # of every family, the behaviours with the most publications (successful `update --role ...`) first: a command
+    # whose output is never published shows nothing
+    def weight(c):
+        return -sum(1 for s in c["steps"] if s["cmd"]["act"] == "incorporate" and s["ok"])
+    cases = []
+    for fam in fams:
+        exhaustive = fam and fam[0]["family"].startswith("MC_KeyOps")
+        if exhaustive and pid == "C07":
+            continue        # key operations do not touch what C07 is about (paths)
+        # the key-operation families are enumerated, not sampled: all of MC_KeyOps, a third of MC_KeyOps2
+        take = (fam if fam[0]["family"] == "MC_KeyOps" else fam[seed % 3::3]) if exhaustive else sorted(fam, key=weight)[:per]
+        cases += take
     cp, out = os.path.join(w, "cases.ndjson"), os.path.join(w, "out.ndjson")
     write_ndjson(cp, cases)
     vh(["delegcli", "--cases", cp, "--out", out, "--tuftool", tuftool], timeout=9000)
